@@ -593,13 +593,21 @@ def builtin_optional_leg(ck, tier):
         if not p['server'] or not p.get('optional_host_keys'):
             continue
         opts = [t for t in p['optional_host_keys'] if t not in p['host_keys']]
+        allopts = list(opts)
         if tier != 'thorough':
             # one type the tool cannot probe (a security-key type: advertised, never measured) and one it can
             sk = [t for t in opts if t.startswith('sk-')][:1]
             opts = sk + [t for t in opts if not t.startswith('sk-')][:2 - len(sk)]
-        for k, opt in enumerate(opts):
+        # one optional type at a time, then several next to one another (all of them in front, all of them behind, a pair in the middle)
+        groups = [(k % (len(p['host_keys']) + 1), [o]) for k, o in enumerate(opts)]
+        if len(allopts) >= 2:
+            groups += [(0, allopts), (len(p['host_keys']), list(reversed(allopts))), (len(p['host_keys']) // 2, allopts[:2])]
+            if len(allopts) >= 3:
+                groups.append((0, allopts[-3:]))
+        for at, grp in groups:
+            opt = '+'.join(grp)
             key = list(p['host_keys'])
-            key.insert(k % (len(key) + 1), opt)
+            key[at:at] = grp
             hks = {}
             for t in key:
                 if t not in rating.DEFAULT_HK:
